@@ -442,5 +442,81 @@ theorem C15_axes_increasing :
     have h2 := (C15_monitor_meaning _ _).mp this.2
     exact ⟨h1.1, h1.2.1, h2.1, h2.2.1⟩
 
+/-! ### further consequences, non-vacuity -/
+
+/-- the clip stays inside the requested interval at its end as well: the sample after the last
+    one starts no later than `e`, and fewer than two sample periods are lost -/
+theorem C15_clip_end (file : List Frame) (ch sr : Nat) (s e : Rat) (a : TimeArray)
+    (h : loadClip file ch sr s e = .ok a) :
+    ((clipOffset sr s : Rat) + a.frames.length) / sr ≤ e ∧
+    e - 2 / (sr : Rat) < ((clipOffset sr s : Rat) + a.frames.length) / sr := by
+  have hl := C15_clip_length file ch sr s e a h
+  obtain ⟨_, hsr, _, _, _⟩ := loadClip_ok file ch sr s e a h
+  have hsr' : (0 : Rat) < sr := by exact_mod_cast hsr
+  have h1 := Rat.floor_le (s * sr)
+  have h2 := Rat.lt_floor_add_one (s * sr)
+  push_cast at h2
+  unfold clipOffset
+  constructor
+  · rw [div_le_iff₀ hsr']; nlinarith [hl.2.1]
+  · rw [lt_div_iff₀ hsr']
+    have : (e - 2 / (sr : Rat)) * sr = e * sr - 2 := by field_simp
+    rw [this]; nlinarith [hl.2.2]
+
+/-- the resampled axis spans exactly the input's span: `num` realised steps = `n` input steps -/
+theorem C15_resample_span (n : Nat) (t0 t1 step : Rat) (target : Nat) (a : Axis)
+    (h : resampleAxis n t0 t1 step target = .ok a) (k : Nat) (hk : k < a.coords.length) :
+    a.coords[k] = t0 + (k : Rat) * ((n : Rat) * (t1 - t0) / (a.coords.length : Rat)) := by
+  obtain ⟨_, hnum, rfl⟩ := resampleAxis_ok n t0 t1 step target a h
+  simp only [List.length_map, List.length_range, List.getElem_map, List.getElem_range]
+  rw [toNat_cast_of_nonneg _ hnum.le]
+  ring
+
+-- non-vacuity ---------------------------------------------------------------------------------
+-- `demoFile`: a 6-frame stereo file, loaded at 4 Hz
+
+-- off both sample boundaries and past the end of file: offset ⌊0.625·4⌋ = 2, ⌊1.5·4⌋ = 6 frames
+example : loadClip demoFile 2 4 (5 / 8) (17 / 8) =
+    .ok ⟨[[3, -3], [4, -4], [5, -5], [6, -6], [0, 0], [0, 0]], [1 / 2, 3 / 4, 1, 5 / 4, 3 / 2, 7 / 4], 1 / 4⟩ := by
+  decide +kernel
+-- zero-length and sub-sample clips load as empty arrays (with the guard of C16-1) …
+example : loadClip demoFile 2 4 (1 / 2) (1 / 2) = .ok ⟨[], [], 1 / 4⟩ := by decide +kernel
+example : loadClip demoFile 2 4 (1 / 2) (5 / 8) = .ok ⟨[], [], 1 / 4⟩ := by decide +kernel
+-- … while the pinned `create_range_dim` raises `IndexError` on the empty range
+example : rangeDimPinned (1 / 2) (1 / 2) (1 / 4) = .error .index := by decide +kernel
+-- starting exactly at the end of file is fine (all zeros), beyond it libsndfile cannot seek
+example : loadClip demoFile 2 4 (3 / 2) 2 = .ok ⟨[[0, 0], [0, 0]], [3 / 2, 7 / 4], 1 / 4⟩ := by decide +kernel
+example : loadClip demoFile 2 4 (7 / 4) 2 = .error .seek := by decide +kernel
+example : loadClip demoFile 2 4 (-1 / 8) 2 = .error .seek := by decide +kernel
+example : loadClip demoFile 2 4 1 (1 / 2) = .error .clip := by decide +kernel
+-- the recording: 6 frames, duration 1.5 s (also when the stored duration is a little off)
+example : loadRecording demoFile 4 (3 / 2) = .ok ⟨demoFile, [0, 1 / 4, 1 / 2, 3 / 4, 1, 5 / 4], 1 / 4⟩ := by decide +kernel
+example : loadRecording demoFile 4 (3 / 2 + 1 / 10) = .ok ⟨demoFile, [0, 1 / 4, 1 / 2, 3 / 4, 1, 5 / 4], 1 / 4⟩ := by decide +kernel
+example : loadRecording demoFile 4 (7 / 4) = .error .shape := by decide +kernel
+example : recordingOf 6 2 2 = (4, 3 / 2) := by decide +kernel
+-- time expansion: file rate 2 Hz, factor 2 (hypotheses of `C15_time_expansion` hold: 2·2 = 4)
+example : loadClip demoFile 2 4 (5 / 8) (17 / 8) = (loadClip demoFile 2 2 (5 / 4) (17 / 4)).map (scaleTime 2) := by
+  decide +kernel
+-- resample: 16 samples at 1/16 s to 6 Hz gives ⌊16·6/16⌋ = 6 exact points; to 7 Hz gives 7 points
+-- spaced 1/7 … and 100 samples at 1/8192 s to 1355 Hz gives 16 points whose spacing is not 1/1355
+example : resampleAxis 16 1 (17 / 16) (1 / 16) 6 = .ok ⟨[1, 7 / 6, 4 / 3, 3 / 2, 5 / 3, 11 / 6], 1 / 6⟩ := by
+  decide +kernel
+example : (resampleAxis 100 0 (1 / 8192) (1 / 8192) 1355).toOption.map
+    (fun a => (a.coords.length, a.coords[1]?, a.step, axisOk 0 a)) =
+    some (16, some (25 / 32768), 1 / 1355, true) := by decide +kernel
+example : resampleAxis 5 0 (1 / 8192) (1 / 8192) 1000 = .error .zerodiv := by decide +kernel
+-- spectrogram: window and hop of 8.5 and 3.25 samples at 8 Hz: nperseg 8, noverlap ⌊5.25⌋ = 5
+example : (stftAxes 32 2 (1 / 8) (17 / 16) (13 / 32)).toOption.map
+    (fun a => (a.nperseg, a.noverlap, a.time.step, a.time.coords.take 3, a.time.coords.length)) =
+    some (8, 5, 3 / 8, [2, 19 / 8, 11 / 4], 12) := by decide +kernel
+example : (stftAxes 32 2 (1 / 8) (17 / 16) (13 / 32)).toOption.map
+    (fun a => (a.freq.step, a.freq.coords, axisOk 2 a.time, axisOk 0 a.freq)) =
+    some (1, [0, 1, 2, 3, 4], true, true) := by decide +kernel
+-- hop longer than the window: `int()` truncates the negative overlap toward zero
+example : (stftAxes 32 0 (1 / 8) (1 / 2) (11 / 16)).toOption.map (fun a => (a.nperseg, a.noverlap, a.time.step)) =
+    some (4, -1, 5 / 8) := by decide +kernel
+example : stftAxes 32 0 (1 / 8) (1 / 16) (1 / 32) = .error .value := by decide +kernel   -- window < 1 sample
+example : stftAxes 32 0 (1 / 8) (17 / 16) (1 / 64) = .error .value := by decide +kernel  -- noverlap = nperseg
+
 
 end SE.Proofs.C15
